@@ -20,23 +20,53 @@ def check(ctx):
                     'the default write batch of dump_to_sql are integer literals <= 10**4 (small against the data sizes the property is '
                     'stated for)')
     found = {}
+    # (looked for in the normalised view of each function: a bound `options.setdefault`, a local alias of self.options and a
+    # module-level name for the literal are read through)
+    from sa.normalize import call_idioms as _ci6, module_literals as _ml6
+    from sa.loader import AnalysisError as _AE6
+
+    def _views(modname):
+        mod_ = ctx.repo.modules[modname]
+        for f_ in list(ctx.repo.functions.values()):
+            if f_.module is mod_ and not isinstance(f_.node, _a6.Lambda) and not getattr(f_, 'inlined', None):
+                try:
+                    yield _ci6(ctx, ctx.N(f_)).node
+                except _AE6:
+                    raise
     il = ctx.repo.modules['dataflows.helpers.iterable_loader']
     for n_ in _a6.walk(il.tree):
         if isinstance(n_, _a6.Assign) and len(n_.targets) == 1 and _u6(n_.targets[0]) == 'SAMPLE_SIZE':
-            found['iterable_loader.SAMPLE_SIZE'] = n_.value
-    ldm = ctx.repo.modules['dataflows.processors.load']
-    for n_ in _a6.walk(ldm.tree):
-        if isinstance(n_, _a6.Call) and isinstance(n_.func, _a6.Attribute) and n_.func.attr == 'setdefault' and len(n_.args) == 2 and \
-                isinstance(n_.args[0], _a6.Constant) and n_.args[0].value == 'sample_size':
-            found['load sample_size default'] = n_.args[1]
-    sqm = ctx.repo.modules['dataflows.processors.dumpers.to_sql']
-    for n_ in _a6.walk(sqm.tree):
-        if isinstance(n_, _a6.Call) and isinstance(n_.func, _a6.Attribute) and n_.func.attr == 'get' and len(n_.args) == 2 and \
-                isinstance(n_.args[0], _a6.Constant) and n_.args[0].value == 'batch_size':
-            found['dump_to_sql batch_size default'] = n_.args[1]
+            v6 = n_.value
+            found['iterable_loader.SAMPLE_SIZE'] = _ml6(il).get(v6.id, v6) if isinstance(v6, _a6.Name) else v6
+    seen6 = set()
+    for fn_ in _views('dataflows.processors.load'):
+        for n_ in _a6.walk(fn_):
+            if isinstance(n_, _a6.Call) and isinstance(n_.func, _a6.Attribute) and n_.func.attr == 'setdefault' and len(n_.args) == 2 and \
+                    isinstance(n_.args[0], _a6.Constant) and n_.args[0].value == 'sample_size':
+                found['load sample_size default'] = n_.args[1]
+                seen6.add(('load', _u6(n_.args[1])))
+    for fn_ in _views('dataflows.processors.dumpers.to_sql'):
+        for n_ in _a6.walk(fn_):
+            if isinstance(n_, _a6.Call) and isinstance(n_.func, _a6.Attribute) and n_.func.attr == 'get' and len(n_.args) == 2 and \
+                    isinstance(n_.args[0], _a6.Constant) and n_.args[0].value == 'batch_size':
+                found['dump_to_sql batch_size default'] = n_.args[1]
+                seen6.add(('sql', _u6(n_.args[1])))
+            # the same defaults as a table: for option, default in (('batch_size', 1000), ...): setattr(self, option, options.get(option, default))
+            if isinstance(n_, _a6.For) and isinstance(n_.iter, (_a6.Tuple, _a6.List)) and isinstance(n_.target, _a6.Tuple) and \
+                    len(n_.target.elts) == 2 and all(isinstance(t_, _a6.Name) for t_ in n_.target.elts) and \
+                    all(isinstance(e_, _a6.Tuple) and len(e_.elts) == 2 for e_ in n_.iter.elts):
+                o6, d6 = [t_.id for t_ in n_.target.elts]
+                if any(isinstance(c_, _a6.Call) and isinstance(c_.func, _a6.Attribute) and c_.func.attr == 'get' and
+                       [_u6(a_) for a_ in c_.args] == [o6, d6] for c_ in _a6.walk(n_)):
+                    for e_ in n_.iter.elts:
+                        if isinstance(e_.elts[0], _a6.Constant) and e_.elts[0].value == 'batch_size':
+                            found['dump_to_sql batch_size default'] = e_.elts[1]
+                            seen6.add(('sql', _u6(e_.elts[1])))
+    if len(seen6) > 2:
+        raise _AE6('look-ahead constants: more than one default for one option (%s)' % sorted(seen6))
     if len(found) != 3:
         from sa.loader import AnalysisError
-        raise AnalysisError('look-ahead constants not found: %s' % sorted(found))
+        raise AnalysisError('look-ahead constants: only found %s' % sorted(found))
     for k_, v_ in sorted(found.items()):
         okc = isinstance(v_, _a6.Constant) and isinstance(v_.value, int) and not isinstance(v_.value, bool) and 1 <= v_.value <= 10 ** 4
         run.check(okc, 'LAC', _w6(ctx.repo, v_), k_, '%s = %s' % (k_, _u6(v_)),
